@@ -865,6 +865,21 @@ func (e *Env) call(x *ECall) TV {
 		NeedList(Type{K: KNB})
 		Declare("uf:native_std_StringSplit", "(declare-fun native_std_StringSplit (String String) L_NB)")
 		return TV{T: sx.App("native_std_StringSplit", toBytes(e.Tr(x.Args[0])), toBytes(e.Tr(x.Args[1]))), Ty: Type{K: KList, Name: "L_NB"}}
+	case x.Fn == "splitne":
+		// std.StringSplitNonEmpty(s, sep): the same uninterpreted function the executor uses
+		NeedList(Type{K: KNB})
+		Declare("uf:native_std_StringSplitNonEmpty", "(declare-fun native_std_StringSplitNonEmpty (String String) L_NB)")
+		return TV{T: sx.App("native_std_StringSplitNonEmpty", toBytes(e.Tr(x.Args[0])), toBytes(e.Tr(x.Args[1]))), Ty: Type{K: KList, Name: "L_NB"}}
+	case x.Fn == "itoa":
+		// std.Itoa(x, 10)
+		Declare("uf:native_std_Itoa", "(declare-fun native_std_Itoa (Int Int) NB)")
+		return TV{T: sx.App("native_std_Itoa", e.Tr(x.Args[0]).T, sx.Int(10)), Ty: Type{K: KNB}}
+	case x.Fn == "splitacc":
+		// length of the first k fragments of split(s, sep) joined by the separator (the prelude's std_splitacc)
+		NeedList(Type{K: KNB})
+		Declare("uf:native_std_StringSplit", "(declare-fun native_std_StringSplit (String String) L_NB)")
+		Declare("uf:std_splitacc", "(declare-fun std_splitacc (String String Int) Int)")
+		return TV{T: sx.App("std_splitacc", toBytes(e.Tr(x.Args[0])), toBytes(e.Tr(x.Args[1])), e.Tr(x.Args[2]).T), Ty: I}
 	case x.Fn == "indexof":
 		return TV{T: sx.App("str.indexof", toBytes(e.Tr(x.Args[0])), toBytes(e.Tr(x.Args[1])), sx.Int(0)), Ty: I}
 	case x.Fn == "suffixof":
